@@ -430,7 +430,10 @@ class IndexLevel:
             return False
 
         node = self
+        found = False
         for k in key:
+            if found: # key is longer than the depth
+                return False
             if not node.index.__contains__(k):
                 return False
 
@@ -439,9 +442,9 @@ class IndexLevel:
                 continue
 
             node.index._loc_to_iloc(k)
-            return True # if above does not raise
+            found = True # if above does not raise
 
-        return False
+        return found
 
     def leaf_loc_to_iloc(self,
             key: tp.Union[tp.Iterable[tp.Hashable], ILoc, HLoc]
